@@ -451,3 +451,11 @@ Proof.
   unfold parse_program in Hp. rewrite Hs in Hp. cbn [build_prog] in Hp. rewrite Hb in Hp. injection Hp as <-.
   eapply build_prog_nodup; [|exact Hb]. constructor.
 Qed.
+
+(* an accepted text always parses to a program (the hypothesis of the soundness theorem is satisfiable) *)
+Lemma legal_check_parses version app msel text :
+  legal_check version app msel text = LOk -> exists p, parse_program msel text = Some p.
+Proof.
+  intros H. destruct (legal_check_inv _ _ _ _ H) as [rest [p [Hs [_ [Hb _]]]]].
+  exists p. unfold parse_program. rewrite Hs. cbn [build_prog]. exact Hb.
+Qed.
